@@ -134,7 +134,16 @@ fn single_cone_case(ctx: &mut Ctx, wl: &str, case: u64, rng: &mut Rng, ct: &Cone
     }
     let (ds, ks) = direction(ct, rng, &s, false);
     let (dz, kz) = direction(ct, rng, &z, true);
-    let amax = *rng.choose(&[1.0, 1.0, 0.5, 0.99, 1e-3]);
+    let mut amax = *rng.choose(&[1.0, 1.0, 0.5, 0.99, 1e-3]);
+    // one case in twelve asks for a maximum BELOW min_terminate_step_length (side stream: the main stream of draws is
+    // unchanged): the requested maximum itself is always tried, whatever the termination threshold
+    {
+        let mut r2 = Rng::for_case(ctx.seed, "C15/small_alpha_max", case);
+        if r2.bool(0.08) {
+            amax = st.min_terminate_step_length * *r2.choose(&[0.99, 0.5, 0.2, 0.01]);
+            ctx.bump("alpha_max_below_min_terminate_step_length");
+        }
+    }
     let (az, a_s) = cone.step_length(&dz, &ds, &z, &s, &st, amax);
     ctx.bump(&format!("dir_{ks}"));
     ctx.bump(&format!("dir_{kz}"));
@@ -174,15 +183,18 @@ fn single_cone_case(ctx: &mut Ctx, wl: &str, case: u64, rng: &mut Rng, ct: &Cone
             // backtracking grid: a in {amax*step^k} or 0
             let step = st.linesearch_backtrack_step;
             if a == 0.0 {
-                // legitimate only if every trial above min_terminate_step_length fails
+                // legitimate only if the requested maximum and every later trial above min_terminate_step_length fail
                 let mut t = amax;
                 let mut any_inside = false;
-                while t >= st.min_terminate_step_length {
+                loop {
                     if ray_margin(ct, x, d, t, dual) > 1e-11 {
                         any_inside = true;
                         break;
                     }
                     t *= step;
+                    if t < st.min_terminate_step_length {
+                        break;
+                    }
                 }
                 if any_inside {
                     ctx.violation(&format!("{name}:zero_step_but_trial_inside"), &format!("{name}:zero_step_but_trial_inside"), wl, case, detail(json!({"inside_trial": t})));
